@@ -17,4 +17,13 @@ CHECKS = {
           "chord-root arithmetic, and generated scores with ties/chords/grace notes.",
   "note": "Trusted: vmon/refmodels/pitch.py, vmon/snapshot.py. Cases whose correct result needs |alter| > 2 are counted out of domain.",
  },
+ "C01": {
+  "technique": "lock-step executable reference model driven from hooks on the real Part mutators; structural invariant after every mutator; query results vs model",
+  "text": "Hooks on Part.add/remove/set_quarter_duration/get_or_add_point update a dict-based reference timeline in lock step and, "
+          "after every outermost mutator returns, compare the real part with it: point set and order, prev/next links, every "
+          "object's start/end being the listing point, registrations, quarter duration per point and as a map; random batches of "
+          "iter_all / iter_prev / iter_next / first / last / get_point queries are compared as multisets in time order. Seeded "
+          "hostile edit histories (collisions on few times, removal at first/last point, emptied parts, redundant quarter changes).",
+  "note": "Trusted: vmon/refmodels/timeline.py. Open documentation points (redundant quarter change, pending point) are accepted both ways.",
+ },
 }
